@@ -249,11 +249,58 @@ def gen_tasks_cli(ctx):
             smaller=lambda cases: [cases[:i] + cases[i + 1:] for i in range(len(cases)) if len(cases) > 1])
 
 
+BEFORE = [None, None,
+          ["transform", "{src}", "{tmp}", "--src-format", "{fmt}", "--dest-format", "brackets", "--dest-opts", "brackets_skipdisco", "brackets_emptypos"],
+          ["transform", "{src}", "{tmp}", "--src-format", "{fmt}", "--dest-format", "export", "--trans", "root_attach", "--params", "quiet"],
+          ["treeanalysis", "{src}", "GapDegree", "--src-format", "{fmt}", "--src-opts", "{opt}"],
+          ["transform", "{src}", "{tmp}", "--src-format", "{fmt}", "--src-opts", "{opt}", "--dest-format", "terminals"]]
+
+
+def check_tasks_inproc(case):
+    """the analysis commands through runpy in this process, on export / TIGER-XML / discobrackets input, optionally
+    after another command with other options on the same file: statistics must be those of the set model"""
+    import shutil
+    import tempfile
+    cases, fmt = case["cases"], case["fmt"]
+    tmpdir = tempfile.mkdtemp(prefix="c16i_")
+    path = os.path.join(tmpdir, "corpus." + fmt)
+    with open(path, "w", encoding="utf-8") as stream:
+        stream.write({"export": CT.encode_export, "discobrackets": CT.encode_discobrackets, "tigerxml": CT.encode_tigerxml}[fmt](cases))
+    outputs = {}
+    try:
+        before = BEFORE[case["before"] % len(BEFORE)]
+        if before:
+            opt = {"export": "quiet", "discobrackets": "disco_reordered", "tigerxml": "quiet"}[fmt]
+            cli.run_inproc([a.format(src=path, tmp=os.path.join(tmpdir, "other"), fmt=fmt, opt=opt) for a in before])
+        for task in ("GapDegree", "PosTags", "SentenceCount"):
+            res = cli.run_inproc(["treeanalysis", path, task, "--src-format", fmt])
+            if res.code != 0:
+                raise violation("C16/cli-inproc/%s/exit-status" % task, "exit %d: %s" % (res.code, res.err[-400:]))
+            outputs[task] = res.out
+    finally:
+        shutil.rmtree(tmpdir, ignore_errors=True)
+    check_tasks_output("cli-inproc", outputs, cases)
+
+
+def gen_tasks_inproc(ctx):
+    quick = ctx.tier == "quick"
+    strategy = st.fixed_dictionaries({"cases": treebank(7, 5), "fmt": st.sampled_from(["export", "discobrackets", "tigerxml"]), "before": st.integers(0, 5)})
+
+    def body(case):
+        check_tasks_inproc(case)
+        deg = max(M.tree_gapdeg(c["root"]) for c in case["cases"])
+        ctx.count(key=case, nontrivial=deg >= 1 and len(case["cases"]) >= 2,
+                  classes=["inproc:" + case["fmt"], "inproc:after-other-command" if BEFORE[case["before"] % len(BEFORE)] else "inproc:alone"])
+    ctx.hyp(strategy, body, max_examples=100 if quick else 1000, shrink=False,
+            smaller=lambda c: [dict(c, cases=c["cases"][:i] + c["cases"][i + 1:]) for i in range(len(c["cases"])) if len(c["cases"]) > 1])
+
+
 UNITS = [Unit("nodes_enum", gen_nodes_enum, check_nodes, shards=(3, 8)),
          Unit("nodes_random", gen_nodes_random, check_nodes, shards=(2, 8)),
          Unit("disco_order", gen_order, check_order, shards=(1, 4)),
          Unit("tasks_api", gen_tasks_api, check_tasks_api, shards=(1, 4)),
-         Unit("tasks_cli", gen_tasks_cli, check_tasks_cli, shards=(4, 8))]
+         Unit("tasks_cli", gen_tasks_cli, check_tasks_cli, shards=(4, 8)),
+         Unit("tasks_inproc", gen_tasks_inproc, check_tasks_inproc, shards=(2, 8))]
 
 
 def check_bank(cases):
